@@ -21,6 +21,10 @@ func (x *Exec) applyFn2(st *State, fn Val, a, b Val) (Term, []Term, bool) {
 	switch {
 	case fn.Clo != nil:
 		v, ok = x.execAsSpec(scratch, fn.Clo.Fn, []Val{a, b}, fn.Clo)
+	case fn.SFn != nil && fn.SFn.String() == "strings.Compare" && a.T.Sort == "String":
+		lt := x.stringBinop(scratch, tokenOf("<"), a.T, b.T)
+		v = Val{T: Ite(lt, IntLit(-1), Ite(Eq(a.T, b.T), IntLit(0), IntLit(1))), Typ: types.Typ[types.Int]}
+		ok = true
 	case fn.SFn != nil:
 		if x.L.isRepoFunc(fn.SFn) && len(fn.SFn.Blocks) > 0 {
 			// the comparison function means what its body computes (its own
@@ -30,6 +34,13 @@ func (x *Exec) applyFn2(st *State, fn Val, a, b Val) (Term, []Term, bool) {
 		if !ok {
 			v = x.pureApp(scratch, fn.SFn, []Val{a, b})
 			ok = true
+		}
+	}
+	if !ok && fn.Clo == nil && fn.SFn == nil {
+		// a symbolic comparison function: an uninterpreted pure function
+		v, ok = x.applyUF(scratch, fn, []Val{a, b})
+		if ok {
+			x.funcsUsed["assume:a func value handed to package slices is a pure function of its arguments"] = true
 		}
 	}
 	if !ok {
@@ -103,6 +114,12 @@ func init() {
 		// same elements
 		st.assume(forall1("i_p", inRange("i_p", n), exists1("j_p", And(inRange("j_p", n), Eq(Select(na, Term{"i_p", "Int"}), Select(old, Term{"j_p", "Int"}))))))
 		st.assume(forall1("j_p", inRange("j_p", n), exists1("i_p", And(inRange("i_p", n), Eq(Select(na, Term{"i_p", "Int"}), Select(old, Term{"j_p", "Int"}))))))
+		// ... as a permutation: na[i] = old[p(i)] with p injective on [0,n)
+		pf := x.d.Fresh("perm", "Int").S + "_f"
+		x.d.DeclareFun(pf, fmt.Sprintf("(declare-fun %s (Int) Int)", pf))
+		p := func(i string) Term { return Term{fmt.Sprintf("(%s %s)", pf, i), "Int"} }
+		st.assume(forall1("i_p", inRange("i_p", n), And(inRange(p("i_p").S, n), Eq(Select(na, Term{"i_p", "Int"}), Select(old, p("i_p"))))))
+		st.assume(forall2("i_p", "j_p", And(Le(IntLit(0), Term{"i_p", "Int"}), Lt(Term{"i_p", "Int"}, Term{"j_p", "Int"}), Lt(Term{"j_p", "Int"}, n)), nil, Not(Eq(p("i_p"), p("j_p")))))
 		ns := mk(sort, "mk_"+sort, na, n, sliceCap(s.T), sliceNil(s.T))
 		if x.sortedBy == nil {
 			x.sortedBy = map[string]func(a, b Term) (Term, []Term, bool){}
@@ -113,7 +130,7 @@ func init() {
 		} else {
 			x.note("outside-subset: %s on a slice not held in a local or field (effect lost)", name)
 		}
-		used(x, name+" (result sorted by the comparison, same elements, same length)")
+		used(x, name+" (result sorted by the comparison, a permutation of the input, same length)")
 		return Val{}, true
 	}
 	libTable["slices.SortFunc"] = func(x *Exec, fr *Frame, st *State, cc *ssa.CallCommon, a []Val) (Val, bool) {
